@@ -192,6 +192,7 @@ func checkC02(r *Report, p *Program) {
 	noNewCrossSyncState(r, p, "R02.8")
 	// revisions of another parent type are never claimed: written type labels = required type labels (shared with C09)
 	revisionLabelsAgree(r, p, "R02.9")
+	namespaceScopingTable(r, p, "R02.10")
 	// an in-place update is conditional on the observed resourceVersion: system metadata reverted to the observed values (shared with C05)
 	r05_4(r, p)
 }
